@@ -298,6 +298,10 @@ impl MultiRecordLog {
             // contain the truncate positions it self won't be GC'ed.
             let _file_number = self.record_log_writer.current_file().clone();
             num_bytes_written += self.record_empty_queues_position()?;
+            // The files we are about to remove are only superseded by what was written after
+            // them, part of which may still sit in the write buffer (or in the OS cache):
+            // persist it before deleting anything.
+            self.persist(PersistAction::FlushAndFsync)?;
             self.record_log_writer.directory().gc()?;
         }
         // only execute the following if we are above the debug  level in tokio tracing
